@@ -66,17 +66,20 @@ class GroundedPrecondition:
         lifted_conditions: Precondition,
         grounded_conditions: Precondition,
         parameters_map: Dict[str, str],
+        action: Optional[Action] = None,
     ) -> None:
         """Ground the preconditions of the action.
 
         :param lifted_conditions: the lifted preconditions of the action.
         :param grounded_conditions: the grounded preconditions of the action.
         :param parameters_map: the mapping between the lifted and the grounded objects.
+        :param action: the action whose signature types the literals (defaults to the grounded action).
         """
+        action = action if action is not None else self.action
         for precondition in lifted_conditions.operands:
             if isinstance(precondition, Predicate):
                 grounded_predicate = ground_predicate(
-                    precondition, parameters_map, self.domain, self.action
+                    precondition, parameters_map, self.domain, action
                 )
                 grounded_conditions.add_condition(grounded_predicate)
 
@@ -89,7 +92,10 @@ class GroundedPrecondition:
 
             elif isinstance(precondition, UniversalPrecondition):
                 self._parameter_map = parameters_map
-                self.logger.debug("There is no need to ground universal preconditions.")
+                self.logger.debug(
+                    "Universal preconditions are grounded per object when they are validated."
+                )
+                grounded_conditions.add_condition(precondition)
                 continue
 
             elif isinstance(precondition, Precondition):
@@ -100,7 +106,8 @@ class GroundedPrecondition:
                 grounded_condition.inequality_preconditions = self._ground_equality_objects(
                     precondition.inequality_preconditions, parameters_map
                 )
-                self._ground(precondition, grounded_condition, parameters_map)
+                self._ground(precondition, grounded_condition, parameters_map, action)
+                grounded_conditions.add_condition(grounded_condition)
 
             else:
                 raise ValueError(
@@ -199,23 +206,20 @@ class GroundedPrecondition:
         :return: the grounded condition for a single object.
         """
         grounded_preconditions = Precondition(condition.binary_operator)
+        grounded_preconditions.equality_preconditions = self._ground_equality_objects(
+            condition.equality_preconditions, extended_parameter_map
+        )
+        grounded_preconditions.inequality_preconditions = self._ground_equality_objects(
+            condition.inequality_preconditions, extended_parameter_map
+        )
         tmp_action = Action()
-        tmp_action.signature = self.action.signature
-        tmp_action.signature[condition.quantified_parameter] = condition.quantified_type
-        for sub_condition in condition.operands:
-            if isinstance(sub_condition, Predicate):
-                grounded_predicate = ground_predicate(
-                    sub_condition, extended_parameter_map, self.domain, tmp_action
-                )
-                grounded_preconditions.add_condition(grounded_predicate)
-
-            elif isinstance(sub_condition, NumericalExpressionTree):
-                grounded_preconditions.add_condition(
-                    ground_numeric_calculation_tree(
-                        sub_condition, extended_parameter_map, self.domain
-                    )
-                )
-
+        tmp_action.signature = {
+            **self.action.signature,
+            condition.quantified_parameter: condition.quantified_type,
+        }
+        self._ground(
+            condition, grounded_preconditions, extended_parameter_map, tmp_action
+        )
         return grounded_preconditions
 
     def _validate_universal_precondition(
@@ -230,55 +234,28 @@ class GroundedPrecondition:
         :param state: the state to validate the precondition in.
         :return: whether the universal precondition is applicable in the given state.
         """
-        if not problem_objects:
-            raise ValueError(
-                "The objects of the problem should be provided for universal preconditions."
+        if problem_objects is None:
+            self.logger.debug(
+                "The problem objects were not provided, quantifying over the objects that appear in the state."
             )
+            problem_objects = state.get_state_objects()
 
         self.logger.debug(
             "Validating if the universal precondition is applicable in the state"
         )
-        is_applicable = self._validate_equality_holds(condition)
-        self.logger.debug("We assume that universal preconditions are not nested.")
+        is_applicable = True
         extended_parameter_map = {**self._parameter_map}
         for obj_name, obj in problem_objects.items():
-            if obj.type.name != condition.quantified_type.name:
+            if not obj.type.is_sub_type(condition.quantified_type):
                 continue
 
             extended_parameter_map[condition.quantified_parameter] = obj_name
             grounded_precondition = self._ground_universal_condition(
                 condition, extended_parameter_map
             )
-            for sub_condition in grounded_precondition.operands:
-                if isinstance(sub_condition, GroundedPredicate):
-                    is_applicable = BinaryOperator[
-                        grounded_precondition.binary_operator
-                    ](
-                        is_applicable,
-                        self._validate_predicates_hold(
-                            sub_condition, is_applicable, condition, state
-                        ),
-                    )
-
-                elif isinstance(sub_condition, NumericalExpressionTree):
-                    is_applicable = BinaryOperator[
-                        grounded_precondition.binary_operator
-                    ](
-                        is_applicable,
-                        self._validate_numeric_expression_hold(
-                            sub_condition, is_applicable, condition, state
-                        ),
-                    )
-
-                elif isinstance(sub_condition, Precondition):
-                    is_applicable = BinaryOperator[
-                        grounded_precondition.binary_operator
-                    ](
-                        is_applicable,
-                        self._is_condition_applicable(
-                            sub_condition, state, problem_objects
-                        ),
-                    )
+            is_applicable = is_applicable and self._is_condition_applicable(
+                grounded_precondition, state, problem_objects
+            )
 
         return is_applicable
 
@@ -313,16 +290,19 @@ class GroundedPrecondition:
                     ),
                 )
 
-            elif isinstance(condition, Precondition):
+            elif isinstance(condition, UniversalPrecondition):
                 is_applicable = BinaryOperator[preconditions.binary_operator](
-                    is_applicable, self._is_condition_applicable(condition, state)
+                    is_applicable,
+                    self._validate_universal_precondition(
+                        condition, state, problem_objects
+                    ),
                 )
 
-            elif isinstance(condition, UniversalPrecondition):
-                is_applicable = self._validate_universal_precondition(
-                    condition, state, problem_objects
+            elif isinstance(condition, Precondition):
+                is_applicable = BinaryOperator[preconditions.binary_operator](
+                    is_applicable,
+                    self._is_condition_applicable(condition, state, problem_objects),
                 )
-                continue
 
             else:
                 raise ValueError(f"Unknown precondition type: {type(condition)}")
